@@ -252,12 +252,59 @@ pub fn eval(c: &Case) -> Eval {
         .class_if(m == 1, "m=1"))
 }
 
+/// Items with exactly the same per-item value r (found in a window of consecutive labels through one-bin sketches; only f32 sketches
+/// have such pairs at this window size): sketches of {x, y}, {y, x}, {x}, {y} and {x, y, fillers} for several sizes. Over all positions of
+/// all these sketches the u32 view and the float view must be functions of the u64 view (the same u64 value always with the same u32
+/// and the same float), although different u64 values now carry equal floats.
+pub fn eval_equal_r(c: &super::c04::TieCase) -> Eval {
+    use std::collections::HashMap;
+    let mut seen: HashMap<u64, u64> = HashMap::new();
+    let mut pairs: Vec<(u64, u64, u64)> = vec![];
+    let mut rs: Vec<(u64, u64)> = Vec::with_capacity(c.window as usize);
+    for i in 0..c.window as u64 {
+        let x = c.base.wrapping_add(i);
+        let r = super::c04::single_r(c.kind, x);
+        rs.push((r, x));
+        if let Some(y) = seen.insert(r, x) {
+            pairs.push((r, y, x));
+        }
+    }
+    let ss = SsParams { b: F(1.001), a: F(20.0), q: 100 };
+    let mut checked = 0;
+    for (r, x, y) in pairs.iter().take(6) {
+        let fill: Vec<u64> = rs.iter().filter(|p| p.0 > *r).take(c.fillers as usize).map(|p| p.1).collect();
+        let mut with_fill = vec![*x, *y];
+        with_fill.extend_from_slice(&fill);
+        let sets: Vec<Vec<u64>> = vec![vec![*x, *y], vec![*y, *x], vec![*x], vec![*y], with_fill];
+        let mut to_u32: HashMap<u64, u64> = HashMap::new();
+        let mut to_fl: HashMap<u64, u64> = HashMap::new();
+        for m in [1usize, 2, 3, 4, 5, 8, 16] {
+            for set in sets.iter() {
+                let mut s = make(c.kind, m, &ss);
+                ensure!(s.slice(set), "slice refused");
+                let v = s.views();
+                let (fl, u64v, u32v) = (v.get("float").unwrap(), v.get("u64").unwrap(), v.get("u32").unwrap());
+                for k in 0..m {
+                    if let Some(prev) = to_u32.insert(u64v[k], u32v[k]) {
+                        ensure!(prev == u32v[k], "{:?}: items {} and {} have the same value r; in the sketch of {:?} with m = {} position {} holds the u64 value {:#x} with the u32 value {:#x}, elsewhere the same u64 value carries the u32 value {:#x}: the u32 view is not a function of the u64 view", c.kind, x, y, set, m, k, u64v[k], u32v[k], prev);
+                    }
+                    if let Some(prev) = to_fl.insert(u64v[k], fl[k]) {
+                        ensure!(prev == fl[k], "{:?}: items {} and {} have the same value r; in the sketch of {:?} with m = {} position {} holds the u64 value {:#x} with float bits {:#x}, elsewhere {:#x}", c.kind, x, y, set, m, k, u64v[k], fl[k], prev);
+                    }
+                }
+            }
+        }
+        checked += 1;
+    }
+    Ok(Report::new(checked > 0).class(format!("{:?}", c.kind)).class_if(checked > 0, "equal-r-pair-found").class_if(checked == 0, "no-equal-r-pair-in-window"))
+}
+
 pub fn run(ctx: &Ctx) {
     ctx.set_rule("proptest generates (algorithm Opt/RevOpt, f64/f32, m, companion size m2, pool of distinct items sized m/8 | m | 4m, history of 1..23 operations Sketch(x) | Slice(xs, possibly empty) | End | Reinit | Views, a second overlapping set). \
         Two sketchers run in lock-step (one replaces every sketch_slice by item-wise sketch + end_sketch) and their raw states (guarded hook) must stay identical; around each finishing step: populated bins untouched, every other bin receives the (value, hash) pair \
         of a populated bin, no empty bin remains, a second end_sketch changes nothing; published u64 positions are hashes of items streamed since the last reinit; u32 is a function of u64 across positions, both algorithms and two sizes; equal u64 => equal float; \
         two same-size sketches of overlapping sets that agree at a position in u64 agree in float and u32. Finishing with no item streamed must report failure (panic/Err) or at least never publish a sketch; a case exceeding the 45 s watchdog is reported as non-termination. \
-        Non-trivial = at least one finishing step that filled at least one empty bin.");
+        Non-trivial = at least one finishing step that filled at least one empty bin. Sub-check equal-r-views: pairs of items with exactly the same per-item value (found in a window of 40 000 / 120 000 consecutive labels; f32 sketches) are sketched alone, together in both orders and with fillers for m in {1,2,3,4,5,8,16}: over all positions of all these sketches the u32 and float views must be functions of the u64 view.");
     ctx.assume("sketching more items into an already finished sketcher is exercised, but only the claims that stay meaningful there are asserted (positions hold streamed hashes, slice == item-wise + end, idempotence)");
     ctx.assume("the 45 s watchdog is used as the non-termination signal because termination is what the property claims; the same work normally takes microseconds");
     super::run_fixed_tier(ctx, replay);
@@ -266,6 +313,9 @@ pub fn run(ctx: &Ctx) {
     // very large, almost empty sketches (every empty bin needs ~m/n probes): finishing must still fill every bin
     let (cases, mmax) = ctx.tier.pick((6, 90_000usize), (48, 200_000usize));
     ctx.drive("huge-sparse", cases, 6, 2, move || huge_strategy(mmax), eval);
+    // different items with exactly equal float values: the u32 and float views must still be functions of the u64 view
+    let (cases, window) = ctx.tier.pick((48, 40_000), (960, 120_000));
+    ctx.drive("equal-r-views", cases, 16, 8, || super::c04::tie_strategy(window), eval_equal_r);
 }
 
 fn huge_strategy(mmax: usize) -> impl Strategy<Value = Case> {
@@ -281,6 +331,11 @@ fn huge_strategy(mmax: usize) -> impl Strategy<Value = Case> {
 
 
 pub fn replay(ctx: &Ctx, sub: &str, case: &Value) -> Result<(), String> {
+    if sub == "equal-r-views" {
+        let c: super::c04::TieCase = parse_case(case)?;
+        ctx.run_fixed(sub, &c, eval_equal_r);
+        return Ok(());
+    }
     let c: Case = parse_case(case)?;
     ctx.run_fixed(sub, &c, eval);
     Ok(())
